@@ -85,66 +85,85 @@ Proof.
   - apply String.eqb_neq in E. destruct saved; [rewrite sget_sset_neq by exact E|]; apply sget_sdel_neq; exact E.
 Qed.
 
+(* side condition on the variable: the template-result name "__$" is deleted by every transform body that finds it
+   bound, so it is preserved only when it is unbound to begin with (it then stays unbound) *)
+Definition okx (x:string) (sc:scope) : Prop := x = implied_result -> sget implied_result sc = None.
+Lemma okx_neq x sc : x <> implied_result -> okx x sc.
+Proof. intros N Q. contradiction. Qed.
+Lemma carry x sc sc1 : sget x sc1 = sget x sc -> okx x sc -> okx x sc1.
+Proof. intros E N Q. subst x. rewrite E. exact (N eq_refl). Qed.
+
 Definition preserves (ev:evaluator) : Prop :=
-  forall sc e v sc' x, ev sc e = Ok (v, sc') -> ~ In x (lets e) -> x <> implied_result -> sget x sc' = sget x sc.
+  forall sc e v sc' x, ev sc e = Ok (v, sc') -> ~ In x (lets e) -> okx x sc -> sget x sc' = sget x sc.
 
 Section Step.
 Variable ev : evaluator.
 Hypothesis Hev : preserves ev.
 
 Lemma seq_preserves es : forall sc vs sc' x,
-  eval_seq ev es sc = Ok (vs, sc') -> ~ In x (lets_list es) -> x <> implied_result -> sget x sc' = sget x sc.
+  eval_seq ev es sc = Ok (vs, sc') -> ~ In x (lets_list es) -> okx x sc -> sget x sc' = sget x sc.
 Proof.
   induction es as [|e es IH]; intros sc vs sc' x H N1 N2; cbn [eval_seq] in H.
   - injection H as _ <-. reflexivity.
   - inv_bind H. destruct a as [v sc1]. inv_bind H. destruct a as [vs' sc2]. injection H as _ <-.
     cbn [lets_list flat_map] in N1. rewrite in_app_iff in N1.
-    rewrite (IH _ _ _ _ Ha0) by tauto. apply (Hev _ _ _ _ _ Ha); tauto.
+    assert (E1 : sget x sc1 = sget x sc) by (apply (Hev _ _ _ _ _ Ha); tauto).
+    rewrite (IH _ _ _ _ Ha0) by (try tauto; exact (carry _ _ _ E1 N2)). exact E1.
 Qed.
 
 Lemma iter_preserves sv rhs keep xs : forall sc out sc' x,
-  iter_rhs ev sv rhs keep xs sc = Ok (out, sc') -> x <> sv -> ~ In x (lets rhs) -> x <> implied_result ->
+  iter_rhs ev sv rhs keep xs sc = Ok (out, sc') -> x <> sv -> ~ In x (lets rhs) -> okx x sc ->
   sget x sc' = sget x sc.
 Proof.
   induction xs as [|l xs IH]; intros sc out sc' x H Nsv N1 N2; cbn [iter_rhs] in H.
   - injection H as _ <-. reflexivity.
   - inv_bind H. destruct a as [r sc1]. inv_bind H. inv_bind H. destruct a0 as [rest sc2]. injection H as _ <-.
-    rewrite (IH _ _ _ _ Ha1 Nsv N1 N2). rewrite (Hev _ _ _ _ _ Ha N1 N2). apply sget_sset_neq. exact Nsv.
+    assert (E0 : sget x (sset sv l sc) = sget x sc) by (apply sget_sset_neq; exact Nsv).
+    assert (E1 : sget x sc1 = sget x sc) by (rewrite (Hev _ _ _ _ _ Ha N1 (carry _ _ _ E0 N2)); exact E0).
+    rewrite (IH _ _ _ _ Ha1 Nsv N1 (carry _ _ _ E1 N2)). exact E1.
 Qed.
 
 Lemma stmts_preserves ss : forall result sc result' sc' x,
-  eval_stmts ev ss result sc = Ok (result', sc') -> ~ In x (lets_stmts ss) -> x <> implied_result -> sget x sc' = sget x sc.
+  eval_stmts ev ss result sc = Ok (result', sc') -> ~ In x (lets_stmts ss) -> okx x sc -> sget x sc' = sget x sc.
 Proof.
   induction ss as [|s ss IH]; intros result sc result' sc' x H N1 N2; cbn [eval_stmts] in H.
   - injection H as _ <-. reflexivity.
   - cbn [lets_stmts flat_map] in N1. rewrite in_app_iff in N1. destruct s as [y e|y e]; cbn [lets_stmt] in N1.
     + inv_bind H. destruct a as [r sc1]. destruct (String.eqb y log_string); [discriminate|].
-      rewrite (IH _ _ _ _ _ H) by tauto. rewrite sget_sset_neq by (cbn [In] in N1; intros ->; tauto).
-      apply (Hev _ _ _ _ _ Ha); cbn [In] in N1; tauto.
-    + inv_bind H. destruct a as [r sc1]. rewrite (IH _ _ _ _ _ H) by tauto. apply (Hev _ _ _ _ _ Ha); tauto.
+      cbn [In] in N1.
+      assert (E1 : sget x sc1 = sget x sc) by (apply (Hev _ _ _ _ _ Ha); tauto).
+      assert (E2 : sget x (sset y r sc1) = sget x sc) by (rewrite sget_sset_neq by (intros ->; tauto); exact E1).
+      rewrite (IH _ _ _ _ _ H) by (try tauto; exact (carry _ _ _ E2 N2)). exact E2.
+    + inv_bind H. destruct a as [r sc1].
+      assert (E1 : sget x sc1 = sget x sc) by (apply (Hev _ _ _ _ _ Ha); tauto).
+      rewrite (IH _ _ _ _ _ H) by (try tauto; exact (carry _ _ _ E1 N2)). exact E1.
 Qed.
 
 Lemma tstmts_preserves ss sc r sc' x :
-  eval_transform_stmts ev ss sc = Ok (r, sc') -> ~ In x (lets_stmts ss) -> x <> implied_result -> sget x sc' = sget x sc.
+  eval_transform_stmts ev ss sc = Ok (r, sc') -> ~ In x (lets_stmts ss) -> okx x sc -> sget x sc' = sget x sc.
 Proof.
   unfold eval_transform_stmts. intros H N1 N2. inv_bind H. destruct a as [result sc1].
-  destruct (sget implied_result sc1); injection H as _ <-.
-  - rewrite sget_sdel_neq by exact N2. apply (stmts_preserves _ _ _ _ _ _ Ha N1 N2).
-  - apply (stmts_preserves _ _ _ _ _ _ Ha N1 N2).
+  pose proof (stmts_preserves _ _ _ _ _ _ Ha N1 N2) as E1.
+  destruct (sget implied_result sc1) eqn:I; injection H as _ <-; [|exact E1].
+  destruct (string_dec x implied_result) as [Q|Q].
+  - subst x. rewrite sget_sdel_eq. symmetry. exact (N2 eq_refl).
+  - rewrite sget_sdel_neq by exact Q. exact E1.
 Qed.
 
 Lemma loop_preserves k sv ss xs : forall acc sc out sc' x,
-  transform_loop ev k sv ss xs acc sc = Ok (out, sc') -> x <> sv -> ~ In x (lets_stmts ss) -> x <> implied_result ->
+  transform_loop ev k sv ss xs acc sc = Ok (out, sc') -> x <> sv -> ~ In x (lets_stmts ss) -> okx x sc ->
   sget x sc' = sget x sc.
 Proof.
   induction xs as [|x0 xs IH]; intros acc sc out sc' x H Nsv N1 N2; cbn [transform_loop] in H.
   - injection H as _ <-. reflexivity.
   - inv_bind H. destruct a as [r sc1]. inv_bind H.
-    rewrite (IH _ _ _ _ _ H Nsv N1 N2). rewrite (tstmts_preserves _ _ _ _ _ Ha N1 N2). apply sget_sset_neq. exact Nsv.
+    assert (E0 : sget x (sset sv x0 sc) = sget x sc) by (apply sget_sset_neq; exact Nsv).
+    assert (E1 : sget x sc1 = sget x sc) by (rewrite (tstmts_preserves _ _ _ _ _ Ha N1 (carry _ _ _ E0 N2)); exact E0).
+    rewrite (IH _ _ _ _ _ H Nsv N1 (carry _ _ _ E1 N2)). exact E1.
 Qed.
 
 Lemma efun_preserves f sc lhs sv rhs r sc' x :
-  apply_efun ev f sc lhs sv rhs = Ok (r, sc') -> x <> sv -> ~ In x (lets rhs) -> x <> implied_result ->
+  apply_efun ev f sc lhs sv rhs = Ok (r, sc') -> x <> sv -> ~ In x (lets rhs) -> okx x sc ->
   sget x sc' = sget x sc.
 Proof.
   intros H Nsv N1 N2.
@@ -189,13 +208,14 @@ Proof.
 Qed.
 
 Lemma transform_preserves sc arg sv ss ty v sc' x :
-  eval_transform ev sc arg sv ss ty = Ok (v, sc') -> ~ In x (lets arg ++ lets_stmts ss) -> x <> implied_result ->
+  eval_transform ev sc arg sv ss ty = Ok (v, sc') -> ~ In x (lets arg ++ lets_stmts ss) -> okx x sc ->
   sget x sc' = sget x sc.
 Proof.
   intros H N1 N2. rewrite in_app_iff in N1. unfold eval_transform in H.
   destruct (is_dot_name arg); [injection H as _ <-; reflexivity|].
   inv_bind H. destruct a as [argv sc0]. cbv zeta in H.
-  rewrite <- (Hev _ _ _ _ _ Ha) by tauto.
+  assert (E0 : sget x sc0 = sget x sc) by (apply (Hev _ _ _ _ _ Ha); tauto).
+  rewrite <- E0. pose proof (carry _ _ _ E0 N2) as N3.
   assert (LOOP : forall k xs out sc1 sc2,
     transform_loop ev k sv ss xs [] sc0 = Ok (out, sc1) ->
     (sc1' <- after_iteration transform_scopevar sv (sget sv sc0) sc1 ;;
@@ -209,7 +229,8 @@ Proof.
      Ok (match sget "." sc0 with Some v => sset "." v sc1' | None => sc1' end)) = Ok sc2 ->
     sget x sc2 = sget x sc0).
   { intros a r sc1 sc2 HS HF. apply (transform_finish _ _ _ _ _ HF).
-    intros Nsv. rewrite (tstmts_preserves _ _ _ _ _ HS) by tauto. apply sget_sset_neq. exact Nsv. }
+    intros Nsv. assert (E1 : sget x (sset sv a sc0) = sget x sc0) by (apply sget_sset_neq; exact Nsv).
+    rewrite (tstmts_preserves _ _ _ _ _ HS) by (try tauto; exact (carry _ _ _ E1 N3)). exact E1. }
   destruct argv as [| b | z | s | | l | l | m]; try discriminate.
   - inv_bind H. destruct a as [r sc1]. inv_bind H. injection H as _ <-. apply (ONE _ _ _ _ Ha0 Ha1).
   - inv_bind H. destruct a as [r sc1]. inv_bind H. injection H as _ <-. apply (ONE _ _ _ _ Ha0 Ha1).
@@ -241,7 +262,8 @@ Proof.
     rewrite lets_transform in N1. apply (transform_preserves _ _ _ _ _ _ _ _ H N1 N2).
   - (* EIf *)
     inv_bind H. destruct a as [cv sc1]. cbn [lets] in N1. rewrite !in_app_iff in N1.
-    rewrite <- (Hev _ _ _ _ _ Ha) by tauto.
+    assert (E1 : sget x sc1 = sget x sc) by (apply (Hev _ _ _ _ _ Ha); tauto).
+    rewrite <- E1. pose proof (carry _ _ _ E1 N2) as N3.
     destruct (getB cv); apply (Hev _ _ _ _ _ H); tauto.
   - (* ECall *)
     rewrite lets_call in N1. unfold eval_call in H.
@@ -265,7 +287,8 @@ Proof.
     { intros op' v' sc'' HD. unfold eval_default in HD. inv_bind HD. destruct a as [l sc1]. inv_bind HD. destruct a as [r sc2].
       destruct (assoc key3_eqb (op', kind_of l, kind_of r) value_functions); [|discriminate].
       inv_bind HD. injection HD as _ <-.
-      rewrite (Hev _ _ _ _ _ Ha0) by tauto. apply (Hev _ _ _ _ _ Ha); tauto. }
+      assert (E1 : sget x sc1 = sget x sc) by (apply (Hev _ _ _ _ _ Ha); tauto).
+      rewrite (Hev _ _ _ _ _ Ha0) by (try tauto; exact (carry _ _ _ E1 N2)). exact E1. }
     destruct (assoc binop_eqb op strategy_table) as [[]|]; try discriminate.
     + apply (DEF _ _ _ H).
     + destruct (negb (binop_eqb op OpNE)); [discriminate|]. inv_bind H. destruct a as [v1 sc1]. inv_bind H. injection H as _ <-.
@@ -275,9 +298,10 @@ Proof.
       inv_bind H. destruct a as [r sc2]. inv_bind H. injection H as _ <-.
       rewrite where_flatten_restores in Ha1.
       rewrite (after_iteration_restore _ _ _ _ x Ha1).
+      assert (E1 : sget x sc1 = sget x sc) by (apply (Hev _ _ _ _ _ Ha); tauto).
       destruct (String.eqb x scopevar) eqn:E.
-      * apply String.eqb_eq in E. subst x. apply (Hev _ _ _ _ _ Ha); tauto.
-      * apply String.eqb_neq in E. rewrite (efun_preserves _ _ _ _ _ _ _ _ Ha0 E) by tauto. apply (Hev _ _ _ _ _ Ha); tauto.
+      * apply String.eqb_eq in E. subst x. exact E1.
+      * apply String.eqb_neq in E. rewrite (efun_preserves _ _ _ _ _ _ _ _ Ha0 E) by (try tauto; exact (carry _ _ _ E1 N2)). exact E1.
   - (* EList *)
     rewrite lets_elist in N1. inv_bind H. destruct a as [vs' sc1]. injection H as _ <-. apply (seq_preserves _ _ _ _ _ Ha N1 N2).
   - (* ESet *)
@@ -285,11 +309,14 @@ Proof.
 Qed.
 End Step.
 
-Lemma eval_preserves fuel vs : preserves (eval fuel vs).
+Lemma eval_preserves_gen fuel vs : preserves (eval fuel vs).
 Proof.
   induction fuel as [|n IH]; [intros sc e v sc' x H; discriminate|].
   cbn [eval]. apply step_preserves. exact IH.
 Qed.
+Lemma eval_preserves fuel vs : forall sc e v sc' x,
+  eval fuel vs sc e = Ok (v, sc') -> ~ In x (lets e) -> x <> implied_result -> sget x sc' = sget x sc.
+Proof. intros sc e v sc' x H N1 N2. exact (eval_preserves_gen fuel vs _ _ _ _ _ H N1 (okx_neq _ _ N2)). Qed.
 
 (* ================= headline statements ================= *)
 
